@@ -652,6 +652,39 @@ theorem client_ip_shorthand_matches_source :
     Gen.placeholderShorthands.lookup "{client_ip}" = some "{http.vars.client_ip}" ∧
     clientIPShorthandOf = phClientIP := by decide
 
+/-! ## provision-time reading of range expressions -/
+
+/-- **an invalid range is an error, never a silently different trust set.** Provisioning accepts a list
+    of range expressions iff EVERY expression is accepted by the parser its syntax selects (a slash
+    selects `ParsePrefix`, otherwise `ParseAddr`). -/
+theorem provision_accepts_iff_all_valid (l : List (Bytes × RangeVerdict)) :
+    provisionAccepts l = true ↔ ∀ e v, (e, v) ∈ l → rangeAccepted e v = true := by
+  induction l with
+  | nil => simp [provisionAccepts]
+  | cons ev rest ih =>
+    obtain ⟨e, v⟩ := ev
+    unfold provisionAccepts
+    cases h : rangeAccepted e v
+    · simp only [Bool.false_eq_true, if_false, false_iff]
+      intro hall
+      have := hall e v (by simp)
+      rw [h] at this; cases this
+    · simp only [if_true, ih]
+      constructor
+      · intro hr e' v' hm
+        rcases List.mem_cons.mp hm with heq | hm
+        · cases heq; exact h
+        · exact hr e' v' hm
+      · intro hall e' v' hm
+        exact hall e' v' (List.mem_cons_of_mem _ hm)
+
+/-- the slash decides: a bare address is never read as a CIDR and vice versa -/
+theorem slash_selects_the_parser (e : Bytes) (v : RangeVerdict) :
+    (e.contains slash = true → rangeAccepted e v = v.prefixOK) ∧
+    (e.contains slash = false → rangeAccepted e v = v.addrOK) := by
+  unfold rangeAccepted
+  constructor <;> intro h <;> rw [h] <;> rfl
+
 /-! ## model artefacts -/
 
 /-- `strings.TrimSpace`'s fuel (the input length) is never exhausted: nothing is left to trim -/
@@ -775,6 +808,10 @@ example : peerAddr toyNet exEarly = some b!"10.0.0.1" ∧
 example : cookieSecure toyNet exCfg ⟨b!"8.8.8.8:1", false, b!"h", false⟩ exHeaders = some false ∧
     cookieSecure toyNet exCfg exTrusted [(b!"X-Forwarded-Proto", b!"https")] = some true ∧
     cookieSecure toyNet exCfg exTrusted exHeaders = some false := by decide
+-- provision-time: "10.0.0.0/33" has a slash and ParsePrefix rejects it; "fe80::1%eth0" is one (zoned) address
+example : provisionAccepts [(b!"10.0.0.0/8", ⟨true, false⟩), (b!"fe80::1%eth0", ⟨false, true⟩)] = true ∧
+    provisionAccepts [(b!"10.0.0.0/8", ⟨true, false⟩), (b!"10.0.0.0/33", ⟨false, false⟩)] = false ∧
+    rangeAccepted b!"10.0.0.1" ⟨false, true⟩ = true := by decide
 -- elements_are_per_value
 example : elements [b!"a,b", b!"", b!"c"] = [b!"a", b!"b", b!"", b!"c"] := by decide
 -- trimSpace_never_runs_out_of_fuel: NBSP, EM SPACE and ASCII blanks around an address
